@@ -323,6 +323,8 @@ func replay(c *ev.Check) {
 		}
 	}
 	switch head.Kind {
+	case "conc":
+		replayConc(c, key)
 	case "tree":
 		var cs treeCase
 		ev.LoadReplay(c.Replay, &cs)
